@@ -43,7 +43,7 @@ def cases(tier):
         # one invocation names the target first and then the link (and the other way round): both are entries of their own
         for fm in FORMS:
             for t in ('file', 'dir', 'chain-file'):
-                for order in ('target-first', 'link-first', 'two-links'):
+                for order in ('target-first', 'link-first', 'two-links', 'two-links-spelled'):
                     out.append({'target': t, 'form': fm, 'slashes': 0, 'reach': 'direct', 'place': pl, 'with': order})
     return out
 
@@ -145,8 +145,13 @@ def run_with_target(c, W, B, E, abs_t, putopts, putenv):
     T = abs_t
     W.link(B + '/real/lnk2', W.nodes[E][2])          # a second link with the same text
     E2 = B + '/real/lnk2'
-    args = {'target-first': [T, E], 'link-first': [E, T], 'two-links': [E, E2]}[c['with']]
+    args = {'target-first': [T, E], 'link-first': [E, T], 'two-links': [E, E2], 'two-links-spelled': [E, E2]}[c['with']]
     rel = [a[len(B) + 1:] for a in args]
+    if c['with'] == 'two-links-spelled':
+        # both links live in B/real; the second is reached as K/../lnk2 with K -> B/real/tdir, while a third, different link sits at <cwd>/lnk2
+        W.link(B + '/K', B + '/real/tdir')
+        W.link(B + '/lnk2', '/outside/keep')
+        rel = ['real/lnk', 'K/../lnk2']
     with cell.Sandbox(W.spec()) as sb:
         orig = sb.snapshot()
         r = sb.run(['trash-put'] + putopts + rel, cwd=B, now='2024-03-03T03:03:03', env=putenv)
@@ -154,6 +159,8 @@ def run_with_target(c, W, B, E, abs_t, putopts, putenv):
     states = [scen.classify_put(orig, mid, a, others=[x for x in args if x != a])['state'] for a in args]
     detail = {'args': rel, 'exit': r.exit, 'err': r.err[-300:], 'states': states}
     dims = 'with=%s|target=%s|form=%s|place=%s' % (c['with'], c['target'], c['form'], c['place'])
+    if c['with'] == 'two-links-spelled' and world.under(orig, B + '/lnk2') != world.under(mid, B + '/lnk2'):
+        states.append('look-alike-in-cwd-touched')
     if states != ['TRASHED', 'TRASHED'] or r.exit != 0:
         return {'verdict': 'viol', 'sig': 'C18|link-and-target-in-one-run|%s|target=%s|states=%s' % (c['with'], c['target'], ','.join(states)), 'klass': 'not-own-entry',
                 'nontrivial': 'with|' + dims, 'detail': detail}
